@@ -324,7 +324,8 @@ def oracle_verdict(line, real, oracle):
     if not rp or not rp[0].startswith("rst="):
         return ("bad", "implementation gave " + real[:60])
     if rp[0] != "rst=-":
-        return ("skip", "store-during-reset-edge " + rp[0])
+        # C03_reset_mem: "started from reset on the same memory image"
+        return ("bad", "the reset edge itself modified memory: " + rp[0])
     n = 0
     for k in range(1, len(op)):
         if op[k].startswith("stop"):
